@@ -91,6 +91,7 @@ type normState struct {
 	fset    *token.FileSet
 	notes   []string
 	overlay map[string][]byte
+	check   *checkSpec
 }
 
 func canonFuncSet() map[string]canonFunc {
